@@ -108,6 +108,7 @@ def handle (j : Json) : R Json := do
       ("state_visible", stateVisibleB evs),
       ("state_not_overwritten", stateNotOverwrittenB evs),
       ("reconnect_rate_limited", rateLimitedB cfg evs),
+      ("attempts_atomic", attemptsAtomicB evs),
       ("reconnect_rate_limited_all", rateLimitedAllB cfg evs),
       ("callbacks_once", callbacksOnceB cbs evs),
       ("polling_resumes", match pollname with
